@@ -24,6 +24,27 @@ namespace Heap
   · rename_i h; subst h; rfl
   · rfl
 
+@[simp] theorem kind_del (s : S) (o f i : Nat) : ((s.del o f).h.obj i).kind = (s.h.obj i).kind := by
+  rw [del_obj]; split
+  · rename_i h; subst h; rfl
+  · rfl
+@[simp] theorem items_del (s : S) (o f i : Nat) : ((s.del o f).h.obj i).items = (s.h.obj i).items := by
+  rw [del_obj]; split
+  · rename_i h; subst h; rfl
+  · rfl
+@[simp] theorem content_del (s : S) (o f i : Nat) : ((s.del o f).h.obj i).content = (s.h.obj i).content := by
+  rw [del_obj]; split
+  · rename_i h; subst h; rfl
+  · rfl
+@[simp] theorem weak_del (s : S) (o f i : Nat) : ((s.del o f).h.obj i).weak = (s.h.obj i).weak := by
+  rw [del_obj]; split
+  · rename_i h; subst h; rfl
+  · rfl
+@[simp] theorem cache_del (s : S) (o f i : Nat) : ((s.del o f).h.obj i).cache = (s.h.obj i).cache := by
+  rw [del_obj]; split
+  · rename_i h; subst h; rfl
+  · rfl
+
 @[simp] theorem kind_setWeak (s : S) (o : Nat) (w : Option Nat) (i : Nat) :
     ((s.setWeak o w).h.obj i).kind = (s.h.obj i).kind := by
   rw [setWeak_obj]; split
@@ -277,6 +298,61 @@ theorem Trk.writePlain {hb : H} {u : Nat} {tr0 : List Eff} {s : S} (T : Trk hb u
     (ht : hb.next ≤ o ∨ Owned hb u o) (ho : o < s.h.next) (hv : v < s.h.next) (hf : isOwn f = false) :
     Trk hb u tr0 (s.write o f v) :=
   T.write ht ho hv (by intro h; rw [hf] at h; cases h) (by intro h; rw [hf] at h; cases h)
+
+/-- an entry of an object that is new or owned by the unit being solved is deleted (`delattr`): whatever the entry,
+the ownership structure can only lose by it -/
+theorem Trk.del {hb : H} {u : Nat} {tr0 : List Eff} {s : S} (T : Trk hb u tr0 s) {o f : Nat}
+    (ht : hb.next ≤ o ∨ Owned hb u o) (ho : o < s.h.next) : Trk hb u tr0 (s.del o f) where
+  wf := T.wf.del ho
+  ext := by
+    refine ⟨by simp only [del_next]; exact T.ext.next_le, ?_, ?_, ?_, ?_, ?_, ?_⟩
+    · intro o' f' v' ho' hf hg
+      rw [getF_del] at hg
+      split at hg
+      · cases hg
+      · exact T.ext.oldOwn o' f' v' ho' hf hg
+    · intro o' ho'; rw [items_del]; exact T.ext.oldItems o' ho'
+    · intro o' ho'; rw [content_del]; exact T.ext.oldContent o' ho'
+    · intro o' ho'; rw [kind_del]; exact T.ext.kind o' ho'
+    · intro o' f' v' ho' hf hg
+      rw [getF_del] at hg
+      split at hg
+      · cases hg
+      · exact T.ext.newOwn o' f' v' ho' hf hg
+    · intro o' c ho' hc; rw [items_del] at hc; exact T.ext.newItems o' c ho' hc
+  tr := by
+    obtain ⟨t, ht', hok⟩ := T.tr
+    refine ⟨t ++ [.write o f], by simp [ht'], ?_⟩
+    intro x hx
+    rw [targets_append] at hx
+    simp only [targets_write, List.mem_append, List.mem_singleton] at hx
+    rcases hx with hx | hx
+    · exact hok x hx
+    · subst hx; exact ht
+  frame := by
+    intro x hx hn
+    rw [del_obj]
+    have : x ≠ o := by
+      intro e; subst e
+      rcases ht with h | h
+      · omega
+      · exact hn h
+    simp only [this, if_false]
+    exact T.frame x hx hn
+  typed := by
+    intro tb
+    have ts := T.typed tb
+    constructor
+    · intro o' f' v' hf hg
+      rw [getF_del] at hg
+      rw [kind_del]
+      split at hg
+      · cases hg
+      · exact ts.own o' f' v' hf hg
+    · intro l c hl hc
+      rw [kind_del] at hl ⊢
+      rw [items_del] at hc
+      exact ts.items l c hl hc
 
 theorem Trk.setWeak {hb : H} {u : Nat} {tr0 : List Eff} {s : S} (T : Trk hb u tr0 s) {o : Nat} {wk : Option Nat}
     (ht : hb.next ≤ o ∨ Owned hb u o) (ho : o < s.h.next) (hw : ∀ t, wk = some t → t < s.h.next) :
